@@ -91,20 +91,21 @@ def distribution(ps):
             "straddling_windows": sum(1 for p in ps for w in p["ws"] if w > 1 and len(p["a"]) > 64 // p["b"])}
 
 
-_warm = [False]
+def _warm_up():
+    """the sibling class BitMask (8-bit registers) is used once in the process before ANY BitArray exists (this module is imported
+    before the kernel validation packs its first array): anything BitArray remembers per bit stride must not come from there"""
+    try:
+        from npstructures.bitarray import BitMask
+        m = BitMask.zeros(20); m[3] = True; m[3]
+    except Exception:
+        pass
+
+
+_warm_up()
 
 
 def run_impl(p):
     from npstructures import BitArray
-    if not _warm[0]:
-        # the sibling class BitMask (8-bit registers) is used once in the process before any BitArray: anything BitArray remembers
-        # per bit stride must not come from there
-        _warm[0] = True
-        try:
-            from npstructures.bitarray import BitMask
-            m = BitMask.zeros(20); m[3] = True; m[3]
-        except Exception:
-            pass
     def f():
         arr = np.array(p["a"], dtype=p["dtype"])
         before = arr.copy()
